@@ -1,7 +1,7 @@
 (* C05 - Equality, ordering and hashing of paths are mutually coherent. *)
 From Coq Require Import List NArith Bool.
 Import ListNotations.
-From TP Require Import Core Path Unix Win Spec UnixProofs WinProofs C05Proofs.
+From TP Require Import Core Path Unix Win Spec UnixProofs WinProofs C05Proofs C05WinProofs.
 
 (* two Unix paths are equal exactly when their (specification) component sequences are equal *)
 Theorem C05_unix_eq_iff : forall a b : list N, u_path_eq a b = true <-> ucomps a = ucomps b.
@@ -46,9 +46,28 @@ Proof. exact w_cmp_eq_iff. Qed.
 Print Assumptions C05_windows_cmp_antisym.
 Print Assumptions C05_windows_cmp_trans.
 Print Assumptions C05_windows_cmp_eq_iff.
-(* C05_windows_hash_partial: "equal Windows paths feed identical data" is not proved for the Windows
-   hash (prefix feed + separator scan after the raw prefix); it is checked by oracle_c05 on every
-   explored pair, including re-spelled twins (slash direction, drive case, doubled separators, "."). *)
+(* two Windows paths are equal exactly when their specification component sequences are equal
+   (prefixes by parsed kind), and the order is lexicographic on them *)
+Theorem C05_windows_eq_iff : forall a b : list N,
+  w_path_eq a b = true <-> list_eqb_c wcomp wcomp_eqb (wspec a) (wspec b) = true.
+Proof. exact w_eq_iff. Qed.
+Theorem C05_windows_cmp_lexicographic : forall a b : list N,
+  w_path_cmp a b = list_cmp_c wcomp wcomp_cmp (wspec a) (wspec b).
+Proof. exact w_cmp_lexicographic. Qed.
+(* the hasher is fed the derived hash of the parsed prefix kind (never its raw spelling), then the
+   bytes of every non-root component after it, then their total length ... *)
+Theorem C05_windows_hash_feed : forall l : list N,
+  w_hash l = (match wkind l with Some k => wprefix_hash k | None => [] end)
+             ++ map HWrite (map uc_bytes (filter non_root (wbody l)))
+             ++ [HUsize (total_len (map uc_bytes (filter non_root (wbody l))))].
+Proof. exact w_hash_feed. Qed.
+(* ... so equal Windows paths feed identical data to any hasher, whatever their spelling *)
+Theorem C05_windows_eq_same_hash : forall a b : list N, w_path_eq a b = true -> w_hash a = w_hash b.
+Proof. exact w_eq_same_hash. Qed.
+Print Assumptions C05_windows_eq_iff.
+Print Assumptions C05_windows_cmp_lexicographic.
+Print Assumptions C05_windows_hash_feed.
+Print Assumptions C05_windows_eq_same_hash.
 
 Example C05_example :
   u_path_eq [47;97;47;47;98;47;46] [47;97;47;46;47;98] = true /\ u_hash [47;97;47;47;98;47;46] = u_hash [47;97;47;46;47;98]
